@@ -876,13 +876,27 @@ func (r *Run) c07Dispatch() {
 	tm := NewTermer(comp)
 	cl := p.Const(PkgT, "GenomeCompatibilityMethodLinear")
 	_ = p.Const(PkgT, "GenomeCompatibilityMethodFast")
-	ll, ff := CallsTo(comp, lin), CallsTo(comp, fast)
+	// the walks compatibility executes, however the callee is written (static call, forwarding wrapper, function value
+	// picked beforehand: one invocation per function the value can hold, under the outcomes of the edge that picked it)
+	invs := c07Invocations(comp, map[*ssa.Function]bool{lin: true, fast: true})
+	var ll, ff []c07Invocation
+	for _, iv := range invs {
+		switch iv.Target {
+		case lin:
+			ll = append(ll, iv)
+		case fast:
+			ff = append(ff, iv)
+		default:
+			r.Bad("compatibility.calls", p.Pos(iv.Call.Pos()), "compatibility calls "+iv.What+", which cannot be resolved to one of the two walks")
+			return
+		}
+	}
 	if len(ll) != 1 || len(ff) != 1 {
 		r.Bad("compatibility.calls", p.Pos(comp.Pos()), fmt.Sprintf("compatibility calls compatLinear %d times and compatFast %d times, expected one each", len(ll), len(ff)))
 		return
 	}
-	side := func(c ssa.CallInstruction) (isLinear, ok bool) {
-		for _, g := range Guards(c.Block()) {
+	side := func(iv c07Invocation) (isLinear, ok bool) {
+		for _, g := range iv.Conds {
 			t := tm.Of(g.Cond)
 			if t.Op == "bin" && (t.Name == "==" || t.Name == "!=") && strings.Contains(t.String(), ".GenCompatMethod") && strings.Contains(t.String(), cl.Val().ExactString()) {
 				return (t.Name == "==") == g.True, true
@@ -892,11 +906,18 @@ func (r *Run) c07Dispatch() {
 	}
 	l, ok1 := side(ll[0])
 	f, ok2 := side(ff[0])
-	r.Check(ok1 && l, "compatibility.linear", p.Pos(ll[0].Pos()), "compatLinear is reached exactly under GenCompatMethod == linear", "compatLinear is not selected by GenCompatMethod == "+cl.Val().ExactString())
-	r.Check(ok2 && !f, "compatibility.fast", p.Pos(ff[0].Pos()), "compatFast is reached otherwise", "compatFast is not the alternative of the linear method")
-	for _, c := range []ssa.CallInstruction{ll[0], ff[0]} {
-		a := callArgTerms(tm, c.Common())
-		okA := a[0].Op == "recv" && isParamIdx(a[1], 1) && isParamIdx(a[2], 2)
+	r.Check(ok1 && l, "compatibility.linear", p.Pos(ll[0].Call.Pos()), "compatLinear is reached exactly under GenCompatMethod == linear", "compatLinear is not selected by GenCompatMethod == "+cl.Val().ExactString())
+	r.Check(ok2 && !f, "compatibility.fast", p.Pos(ff[0].Call.Pos()), "compatFast is reached otherwise", "compatFast is not the alternative of the linear method")
+	isWalkResult := func(v ssa.Value) bool {
+		return v == ll[0].Call.Value() || v == ff[0].Call.Value()
+	}
+	for _, iv := range []c07Invocation{ll[0], ff[0]} {
+		c := iv.Call
+		okA := len(iv.Args) == 3
+		if okA {
+			a := []*Term{tm.Of(iv.Args[0]), tm.Of(iv.Args[1]), tm.Of(iv.Args[2])}
+			okA = a[0].Op == "recv" && isParamIdx(a[1], 1) && isParamIdx(a[2], 2)
+		}
 		retOK := false
 		for _, b := range comp.Blocks {
 			if ret, ok := b.Instrs[len(b.Instrs)-1].(*ssa.Return); ok {
@@ -912,7 +933,7 @@ func (r *Run) c07Dispatch() {
 				}
 			}
 		}
-		r.Check(okA && retOK, "compatibility.passes:"+c.Common().StaticCallee().Name(), p.Pos(c.Pos()), "same genomes and options passed on, result returned", "the walk is not called with (g, og, opts) or its result is not what compatibility returns")
+		r.Check(okA && retOK, "compatibility.passes:"+iv.Target.Name(), p.Pos(c.Pos()), "same genomes and options passed on, result returned", "the walk is not called with (g, og, opts) or its result is not what compatibility returns")
 	}
 	// no other result: every return yields the result of a walk; a constant 0 is acceptable only
 	// for the very same genome object (pointer identity) - genome ids are not unique (every species
@@ -928,7 +949,7 @@ func (r *Run) c07Dispatch() {
 			vals = append(vals, c)
 		}
 		for _, v := range vals {
-			if v == ll[0].Value() || v == ff[0].Value() {
+			if isWalkResult(v) {
 				continue
 			}
 			same := false
